@@ -26,6 +26,10 @@ type lazyWithCore struct {
 	Core
 	sync.Once
 	fields []Field
+	// lazy is Core.With(fields), built on first use. The embedded Core is
+	// never written after construction, so Enabled may read it without
+	// synchronization.
+	lazy Core
 }
 
 // NewLazyWith wraps a Core with a "lazy" Core that will only encode fields if
@@ -39,16 +43,26 @@ func NewLazyWith(core Core, fields []Field) Core {
 
 func (d *lazyWithCore) initOnce() {
 	d.Once.Do(func() {
-		d.Core = d.Core.With(d.fields)
+		d.lazy = d.Core.With(d.fields)
 	})
 }
 
 func (d *lazyWithCore) With(fields []Field) Core {
 	d.initOnce()
-	return d.Core.With(fields)
+	return d.lazy.With(fields)
 }
 
 func (d *lazyWithCore) Check(e Entry, ce *CheckedEntry) *CheckedEntry {
 	d.initOnce()
-	return d.Core.Check(e, ce)
+	return d.lazy.Check(e, ce)
+}
+
+func (d *lazyWithCore) Write(e Entry, fields []Field) error {
+	d.initOnce()
+	return d.lazy.Write(e, fields)
+}
+
+func (d *lazyWithCore) Sync() error {
+	d.initOnce()
+	return d.lazy.Sync()
 }
